@@ -98,6 +98,9 @@ def base_d():
                          "get": {"operationId": "getItem", "responses": ok(iobj(item=ref("Item"), etag={"type": "string"}))},
                          "patch": {"operationId": "patchItem", "requestBody": {"content": {"application/json": {"schema": iobj(state=ref("State"))}}}, "responses": ok(ref("Item"))}},
          "/plain": {"get": {"operationId": "getPlain", "responses": {"204": {"description": "n"}}}},
+         # operations that are ALONE in their tag (a fault in one empties the tag)
+         "/solo": {"get": {"operationId": "getSolo", "tags": ["solo"], "responses": ok(ref("Item"))}},
+         "/duo": {"post": {"operationId": "postDuo", "tags": ["duo", "extra"], "requestBody": {"content": {"application/json": {"schema": ref("Item")}}}, "responses": {"204": {"description": "n"}}}},
          # shared path-item parameters: inherited by one operation, re-declared (same name and location) by the others
          "/shared": {"parameters": [{"name": "q", "in": "query", "schema": {"type": "string"}}, {"name": "X-T", "in": "header", "schema": {"type": "string"}}],
                      "get": {"operationId": "listShared", "responses": ok(ref("Item"))},
@@ -154,6 +157,18 @@ def insert(doc, bad_name, pos, base="A"):
             else:
                 s["additionalProperties"] = bad
             return d, {("schema", pos[1])}
+        if kind == "media2":
+            # a SECOND media type of a request body that already has a healthy one: only that media type is the bad piece
+            m, p = pos[1], pos[2]
+            op = d["paths"][p][m]
+            if "requestBody" not in op or "$ref" in op["requestBody"]:
+                return None
+            content = op["requestBody"]["content"]
+            if not all(isinstance(v, dict) and "$ref" in v.get("schema", {}) for v in content.values()):
+                return None        # inline body classes are named after the NUMBER of declared media types: not a removal-stable shape
+            extra = "application/x-www-form-urlencoded" if "application/x-www-form-urlencoded" not in content else "application/vnd.other+json"
+            content[extra] = {"schema": bad}
+            return d, set()
         if kind == "itemparam":
             # the schema of the i-th path-item level parameter: carried by the operations that INHERIT it (do not re-declare name+location)
             p, i = pos[1], pos[2]
@@ -206,7 +221,7 @@ def positions(doc):
     for s in _object_schemas(doc):
         pos += [("prop", s), ("item", s), ("union", s), ("addl", s)]
     for m, p in _ops(doc):
-        pos += [("param", m, p), ("resp", m, p), ("body", m, p), ("op", m, p)]
+        pos += [("param", m, p), ("resp", m, p), ("body", m, p), ("op", m, p), ("media2", m, p)]
     for p, item in doc["paths"].items():
         for i, prm in enumerate(item.get("parameters", [])):
             if isinstance(prm, dict) and "schema" in prm and prm.get("in") != "path":
@@ -278,6 +293,12 @@ def run_case(p):
     cone = deps.cone(dprime, carriers)
     dout = deps.remove_units(dprime, cone)
     for bad, pos in p["faults"]:
+        if pos[0] == "media2":        # the document without the bad piece: the same body without that media type
+            content = dout["paths"][pos[2]][pos[1]]["requestBody"]["content"]
+            for k_ in ("application/x-www-form-urlencoded", "application/vnd.other+json"):
+                if k_ in content and list(content).index(k_) == len(content) - 1:
+                    del content[k_]
+                    break
         if pos[0] == "itemparam" and pos[1] in dout["paths"]:      # the shared parameter goes with the operations that inherited it
             prm = dout["paths"][pos[1]]["parameters"]
             dout["paths"][pos[1]]["parameters"] = [q for j, q in enumerate(prm) if j != pos[2]]
